@@ -426,4 +426,202 @@ theorem snake_eq_deriveSnake {n : Name} (h : noConsecutiveCapitals n = true) :
     simp only [noConsecutiveCapitals, Bool.and_eq_true, Bool.not_eq_true', Bool.and_eq_false_iff]
     exact ⟨Or.inl (by decide), h⟩
 
+/-! ### Lemmas used by `Props/C26` -/
+
+theorem synReject_length_le : ∀ k ∈ synReject, k.length ≤ 8 := by decide
+
+theorem not_rejected_of_long {n : Name} (h : 8 < n.length) : synReject.contains n = false := by
+  cases hc : synReject.contains n with
+  | false => rfl
+  | true =>
+    have := synReject_length_le n (by simpa using hc)
+    omega
+
+theorem all_continue_of_identShape {n : Name} (h : identShape n = true) : n.all isIdentContinue = true := by
+  cases n with
+  | nil => simp [identShape] at h
+  | cons d ds =>
+    simp only [identShape, Bool.and_eq_true] at h
+    simp only [List.all_cons, Bool.and_eq_true]
+    exact ⟨isIdentContinue_of_start h.1, h.2⟩
+
+theorem identShape_wrap {pre suf x : Name} (hp : identShape pre = true) (hs : suf.all isIdentContinue = true)
+    (hx : x.all isIdentContinue = true) : identShape (pre ++ x ++ suf) = true := by
+  cases pre with
+  | nil => simp [identShape] at hp
+  | cons d ds =>
+    simp only [identShape, Bool.and_eq_true] at hp
+    simp only [List.cons_append, identShape, List.all_append, Bool.and_eq_true]
+    exact ⟨hp.1, ⟨hp.2, hx⟩, hs⟩
+
+theorem usableIdent_intro {n : Name} (h1 : identShape n = true) (h2 : synReject.contains n = false) :
+    usableIdent n = true := by
+  unfold usableIdent; rw [h1, h2]; rfl
+
+theorem usableIdent_elim {n : Name} (h : usableIdent n = true) :
+    identShape n = true ∧ synReject.contains n = false := by
+  unfold usableIdent at h
+  rw [Bool.and_eq_true, Bool.not_eq_true'] at h
+  exact h
+
+theorem variant_identShape {n : Name} (h : validGraphQLName n = true) : identShape (variantName n) = true := by
+  cases n with
+  | nil => simp [validGraphQLName, identShape] at h
+  | cons c cs =>
+    simp only [validGraphQLName, identShape, Bool.and_eq_true] at h
+    simp only [variantName, upperCaseVariantName]
+    apply escape_identShape
+    simp only [identShape, Bool.and_eq_true]
+    exact ⟨isIdentStart_toAsciiUpper h.1, h.2⟩
+
+theorem synReject_no_as_prefix : ∀ k ∈ synReject, k.take 3 ≠ "as_".toList := by decide
+
+theorem unescapedReserved_heads :
+    unescapedReserved.all (fun k => k == ['_'] || (match k with | c :: _ => isLower c | [] => false)) = true := by
+  decide
+
+theorem wrap_injective {pre suf x y : Name} (h : pre ++ x ++ suf = pre ++ y ++ suf) : x = y :=
+  List.append_cancel_left (List.append_cancel_right h)
+
+theorem snake_eq_of_key_ne {a b : Name} : toLowerSnakeCase a = toLowerSnakeCase b → conflictKey a = conflictKey b :=
+  fun h => by simp [conflictKey, h]
+
+/-- the character after the first one is not a capital letter -/
+def secondNotUpper : Name → Bool
+  | _ :: d :: _ => !isUpper d
+  | _ => true
+
+theorem escape_eq_cases {x y : Name} (h : escapedRustName x = escapedRustName y) :
+    x = y ∨ (escapeTable.contains x = true ∧ y = x ++ ['_']) ∨
+      (escapeTable.contains y = true ∧ x = y ++ ['_']) := by
+  rcases escape_cases x with ⟨hx, ex⟩ | ⟨hx, ex⟩ <;> rcases escape_cases y with ⟨hy, ey⟩ | ⟨hy, ey⟩ <;>
+    rw [ex, ey] at h
+  · exact Or.inl (List.append_cancel_right h)
+  · exact Or.inr (Or.inl ⟨hx, h.symm⟩)
+  · exact Or.inr (Or.inr ⟨hy, h⟩)
+  · exact Or.inl h
+
+theorem escapeTable_heads :
+    escapeTable.all (fun k => (match k with | c :: _ => isLower c | [] => false)
+      || k == "Self".toList || k == "'static".toList) = true := by decide
+
+/-- first output character of `to_lower_snake_case` -/
+def firstOut (c : Char) : Char := if isUpper c then toLower c else c
+
+theorem snake_cons (c : Char) (r : Name) : toLowerSnakeCase (c :: r) = firstOut c :: snakeGo c r := by
+  show snakeGo '_' (c :: r) = _
+  rw [snakeGo]
+  have : (('_' : Char) != '_' && !isUpper '_') = false := by decide
+  simp only [this, firstOut]
+  split <;> simp
+
+theorem firstOut_eq_of_upper_eq {c1 c2 : Char} (h : toAsciiUpper c1 = toAsciiUpper c2) :
+    firstOut c1 = firstOut c2 := by
+  apply eq_of_toNat_eq
+  have hn := congrArg Char.toNat h
+  cases h1 : isLower c1 <;> cases h2 : isLower c2
+  · rw [toAsciiUpper_of_not_lower h1, toAsciiUpper_of_not_lower h2] at h
+    rw [h]
+  · rw [toAsciiUpper_of_not_lower h1, toNat_toAsciiUpper_of_lower h2] at hn
+    have hl := (isLower_iff c2).mp h2
+    have hu : isUpper c1 = true := by rw [isUpper_iff]; omega
+    simp only [firstOut, hu, if_true, not_upper_of_lower h2, Bool.false_eq_true, if_false]
+    rw [toNat_toLower_of_upper hu]; omega
+  · rw [toNat_toAsciiUpper_of_lower h1, toAsciiUpper_of_not_lower h2] at hn
+    have hl := (isLower_iff c1).mp h1
+    have hu : isUpper c2 = true := by rw [isUpper_iff]; omega
+    simp only [firstOut, hu, if_true, not_upper_of_lower h1, Bool.false_eq_true, if_false]
+    rw [toNat_toLower_of_upper hu]; omega
+  · rw [toNat_toAsciiUpper_of_lower h1, toNat_toAsciiUpper_of_lower h2] at hn
+    have hl1 := (isLower_iff c1).mp h1
+    have hl2 := (isLower_iff c2).mp h2
+    simp only [firstOut, not_upper_of_lower h1, not_upper_of_lower h2, Bool.false_eq_true, if_false]
+    omega
+
+theorem snakeGo_indep_of_last {r : Name} (c1 c2 : Char)
+    (h : (match r with | d :: _ => !isUpper d | [] => true) = true) : snakeGo c1 r = snakeGo c2 r := by
+  cases r with
+  | nil => simp [snakeGo]
+  | cons d r' =>
+    have hd : isUpper d = false := by simpa using h
+    unfold snakeGo
+    simp [hd]
+
+theorem key_self : conflictKey "Self".toList = "self_".toList ∧ conflictKey "self".toList = "self_".toList ∧
+    conflictKey "Self_".toList = "self_".toList ∧ conflictKey "self_".toList = "self_".toList := by decide
+
+/-- a name whose capitalised form is `Self` / `Self_` -/
+theorem upper_eq_Self {c : Char} {r : Name} (h : toAsciiUpper c :: r = 'S' :: r) :
+    c = 'S' ∨ c = 's' := by
+  have hc : toAsciiUpper c = 'S' := (List.cons.inj h).1
+  cases hl : isLower c with
+  | false => rw [toAsciiUpper_of_not_lower hl] at hc; exact Or.inl hc
+  | true =>
+    right
+    apply eq_of_toNat_eq
+    have h2 := toNat_toAsciiUpper_of_lower hl
+    have h3 := (isLower_iff c).mp hl
+    rw [hc] at h2
+    have : ('S' : Char).toNat = 83 := by decide
+    have : ('s' : Char).toNat = 115 := by decide
+    omega
+
+/-- Two valid names with equal variants have equal check keys, provided their second characters are not
+capitals. -/
+theorem key_eq_of_variant_eq {a b : Name} (ha : validGraphQLName a = true) (hb : validGraphQLName b = true)
+    (ga : secondNotUpper a = true) (gb : secondNotUpper b = true)
+    (h : variantName a = variantName b) : conflictKey a = conflictKey b := by
+  cases a with
+  | nil => simp [validGraphQLName, identShape] at ha
+  | cons c1 r1 =>
+  cases b with
+  | nil => simp [validGraphQLName, identShape] at hb
+  | cons c2 r2 =>
+  simp only [variantName, upperCaseVariantName] at h
+  simp only [validGraphQLName, identShape, Bool.and_eq_true] at ha hb
+  -- a keyword of the table whose first character is a capitalised identifier start is `Self`
+  have selfOnly : ∀ (c : Char) (r : Name), isIdentStart c = true →
+      escapeTable.contains (toAsciiUpper c :: r) = true → toAsciiUpper c :: r = "Self".toList := by
+    intro c r hc hm
+    have hm' : (toAsciiUpper c :: r) ∈ escapeTable := by simpa using hm
+    have := List.all_eq_true.mp escapeTable_heads _ hm'
+    simp only [Bool.or_eq_true, beq_iff_eq] at this
+    rcases this with (h1 | h1) | h1
+    · rw [isLower_toAsciiUpper] at h1; cases h1
+    · exact h1
+    · -- `'static`: its first character is not an identifier start
+      exfalso
+      have hq : toAsciiUpper c = '\'' := (List.cons.inj h1).1
+      have hs := isIdentStart_toAsciiUpper hc
+      rw [hq] at hs
+      exact absurd hs (by decide)
+  -- the two names in the `Self` / `Self_` situation have the same key
+  have selfCase : ∀ (c d : Char) (r s : Name), toAsciiUpper c :: r = "Self".toList →
+      toAsciiUpper d :: s = "Self".toList ++ ['_'] → conflictKey (c :: r) = conflictKey (d :: s) := by
+    intro c d r s h1 h2
+    have hr : r = "elf".toList := (List.cons.inj h1).2
+    have hs : s = "elf_".toList := (List.cons.inj h2).2
+    have hc := upper_eq_Self (c := c) (r := r) (by rw [h1, hr]; rfl)
+    have hd := upper_eq_Self (c := d) (r := s) (by rw [h2, hs]; rfl)
+    subst hr hs
+    rcases hc with rfl | rfl <;> rcases hd with rfl | rfl <;> decide
+  rcases escape_eq_cases h with heq | ⟨hm, heq⟩ | ⟨hm, heq⟩
+  · -- same capitalised name: the names differ at most in the case of their first letter
+    obtain ⟨hc, hr⟩ := List.cons.inj heq
+    subst hr
+    apply snake_eq_of_key_ne
+    rw [snake_cons, snake_cons, firstOut_eq_of_upper_eq hc]
+    congr 1
+    apply snakeGo_indep_of_last
+    cases r1 with
+    | nil => rfl
+    | cons d r' => simpa [secondNotUpper] using ga
+  · have hs := selfOnly c1 r1 ha.1 hm
+    rw [hs] at heq
+    exact selfCase c1 c2 r1 r2 hs heq
+  · have hs := selfOnly c2 r2 hb.1 hm
+    rw [hs] at heq
+    exact (selfCase c2 c1 r2 r1 hs heq).symm
+
+
 end TF.Stubgen
